@@ -47,9 +47,17 @@ class LongPoll(object):
     def start(self):
         """Start the long poll service."""
         logging.info("Starting Long Poll system")
-        self.timer = RepeatedTimer("Tracepoint Long Poll", self.config.POLL_TIMER, self.poll)
+        self.timer = RepeatedTimer("Tracepoint Long Poll", self.__poll_interval(), self.poll)
         self.__initial_poll()
         self.timer.start()
+
+    def __poll_interval(self):
+        # the value is text when it comes from the environment (DEEP_POLL_TIMER)
+        try:
+            return float(self.config.POLL_TIMER)
+        except (TypeError, ValueError):
+            logging.warning("Invalid POLL_TIMER %s, using 10 seconds.", self.config.POLL_TIMER)
+            return 10
 
     def __initial_poll(self):
         try:
